@@ -2,6 +2,7 @@ package cloudblob
 
 import (
 	"context"
+	"errors"
 	"fmt"
 	"net/http"
 	"net/http/httptest"
@@ -10,6 +11,7 @@ import (
 	"strings"
 	"sync"
 	"sync/atomic"
+	"syscall"
 	"testing"
 	"time"
 
@@ -18,6 +20,8 @@ import (
 	"github.com/rs/zerolog"
 
 	"github.com/dadrus/heimdall/internal/config"
+	"github.com/dadrus/heimdall/internal/heimdall"
+	rule_config "github.com/dadrus/heimdall/internal/rules/config"
 	"github.com/dadrus/heimdall/internal/verif/vkit/core"
 )
 
@@ -32,29 +36,30 @@ import (
 const vfGenericBlob = "blob-mismatch"
 
 const (
-	vfbNewX = iota // put x with new valid content
-	vfbSameX       // put x again with identical bytes
-	vfbEmptyX      // put x with empty content
-	vfbInvalidX    // put x with invalid content
-	vfbUnsupX      // put x with an unsupported content type (generated, not asserted)
-	vfbDelX        // delete x
-	vfbNewY        // put y with new valid content
-	vfbDelY        // delete y
-	vfbDown        // connections are dropped during this poll (network failure)
-	vfbTimeout     // this poll runs into its deadline
-	vfbFail        // next processor call fails (no poll)
+	vfbNewX     = iota // put x with new valid content
+	vfbSameX           // put x again with identical bytes
+	vfbEmptyX          // put x with empty content
+	vfbInvalidX        // put x with invalid content
+	vfbUnsupX          // put x with an unsupported content type (generated, not asserted)
+	vfbDelX            // delete x
+	vfbNewY            // put y with new valid content
+	vfbDelY            // delete y
+	vfbDown            // connections are dropped by the peer during this poll (network failure)
+	vfbRefused         // connections are refused during this poll (network failure)
+	vfbTimeout         // this poll runs into its deadline
+	vfbFail            // next processor call fails (no poll)
 	vfbN
 )
 
 var vfbNames = [vfbN]string{"put-new(x)", "put-same(x)", "put-empty(x)", "put-invalid(x)", "put-unsupported-type(x)", "delete(x)", "put-new(y)", "delete(y)",
-	"poll-while-unreachable", "poll-times-out", "processor-fails-next"}
+	"poll-while-connections-dropped", "poll-while-connections-refused", "poll-times-out", "processor-fails-next"}
 
 // vfbGate sits in front of gofakes3: it can drop connections (network failure) and, in loop mode,
 // hold the first request of a poll (the bucket listing / the HEAD of the single blob) until permitted.
 type vfbGate struct {
-	next    http.Handler
-	down    sync.Map // bucket name -> bool
-	gates   sync.Map // bucket name -> *vfbPollGate
+	next  http.Handler
+	down  sync.Map // bucket name -> bool
+	gates sync.Map // bucket name -> *vfbPollGate
 }
 
 type vfbPollGate struct {
@@ -77,6 +82,9 @@ func vfbBucketOf(r *http.Request) string {
 
 func (g *vfbGate) ServeHTTP(w http.ResponseWriter, r *http.Request) {
 	b := vfbBucketOf(r)
+	if os.Getenv("VERIF_DEBUG") != "" {
+		fmt.Println("gate:", r.Method, r.Host, r.URL.String(), "bucket:", b)
+	}
 	if pg, ok := g.gates.Load(b); ok && r.URL.Query().Has("list-type") {
 		pg := pg.(*vfbPollGate)
 		atomic.AddInt64(&pg.arrived, 1)
@@ -117,12 +125,21 @@ type vfbWorld struct {
 	only    string              // blob mode: the single blob the endpoint names
 }
 
-func (w *vfbWorld) key(l string) string { return w.tag + l }
+// keys under which logical blob l is stored. An endpoint naming a single blob uses URL.Path - which
+// starts with a slash when the URL was parsed from configuration - as the object key; the object is
+// stored with and without the slash so that the harness does not depend on that detail.
+func (w *vfbWorld) keys(l string) []string {
+	if w.only != "" {
+		return []string{"/" + w.tag + l, w.tag + l}
+	}
+	return []string{w.tag + l}
+}
 
 func (w *vfbWorld) put(l, kind, content, data, ctype string) error {
-	_, err := w.backend.PutObject(w.bucket, w.key(l), map[string]string{"Content-Type": ctype}, strings.NewReader(data), int64(len(data)))
-	if err != nil {
-		return err
+	for _, k := range w.keys(l) {
+		if _, err := w.backend.PutObject(w.bucket, k, map[string]string{"Content-Type": ctype}, strings.NewReader(data), int64(len(data))); err != nil {
+			return err
+		}
 	}
 	w.blobs[l] = &vfbBlob{exists: true, kind: kind, content: content, data: data, ctype: ctype}
 	return nil
@@ -132,8 +149,10 @@ func (w *vfbWorld) del(l string) error {
 	if b := w.blobs[l]; b == nil || !b.exists {
 		return nil
 	}
-	if _, err := w.backend.DeleteObject(w.bucket, w.key(l)); err != nil {
-		return err
+	for _, k := range w.keys(l) {
+		if _, err := w.backend.DeleteObject(w.bucket, k); err != nil {
+			return err
+		}
 	}
 	w.blobs[l].exists = false
 	return nil
@@ -175,6 +194,8 @@ func (w *vfbWorld) apply(sym int) error {
 		return w.del("y")
 	case vfbDown:
 		w.poll = "down"
+	case vfbRefused:
+		w.poll = "refused"
 	case vfbTimeout:
 		w.poll = "timeout"
 	}
@@ -271,6 +292,33 @@ func vfbClassifier(o *vfOracle) func(m *vfMismatch, s *vfStep) string {
 	}
 }
 
+// vfbFetcher is the real ruleSetEndpoint; only for a scripted "unreachable" poll it returns, without
+// contacting the service, the result (rule sets, error) the real endpoint produced for a really dropped / refused connection in the
+// calibration step (the AWS SDK retries a dropped connection three times with seconds of back-off,
+// which cannot be repeated thousands of times).
+type vfbFetcher struct {
+	real   *ruleSetEndpoint
+	replay *vfbFetchResult // non-nil: outcome of this poll
+}
+
+// vfbFetchResult is what the real endpoint returned for a real network failure.
+type vfbFetchResult struct {
+	sets []*rule_config.RuleSet
+	err  error
+	done bool
+}
+
+type vfbFailures struct{ dropped, refused vfbFetchResult }
+
+func (f *vfbFetcher) ID() string { return f.real.ID() }
+
+func (f *vfbFetcher) FetchRuleSets(ctx context.Context) ([]*rule_config.RuleSet, error) {
+	if f.replay != nil {
+		return f.replay.sets, f.replay.err
+	}
+	return f.real.FetchRuleSets(ctx)
+}
+
 func vfbEndpoint(srvURL, bucket, blobKey string) (*ruleSetEndpoint, error) {
 	raw := "s3://" + bucket
 	if blobKey != "" {
@@ -291,8 +339,8 @@ func vfbEndpoint(srvURL, bucket, blobKey string) (*ruleSetEndpoint, error) {
 
 func TestC18(t *testing.T) {
 	r := core.Begin("C18", "fault_enumeration")
-	r.Rule("cloud_blob: exhaustive sequences (length <=3 quick / <=4 thorough, plus a seeded sample of longer ones) over 11 symbols (blob x: put new/same/empty/invalid/unsupported type, delete; " +
-		"blob y: put new, delete; poll while connections are dropped; poll running into its deadline; processor failure); each symbol mutates the gofakes3 bucket and runs " +
+	r.Rule("cloud_blob: exhaustive sequences (length <=3 quick / <=4 thorough, plus a seeded sample of longer ones) over 12 symbols (blob x: put new/same/empty/invalid/unsupported type, delete; " +
+		"blob y: put new, delete; poll while connections are dropped / refused; poll running into its deadline; processor failure); each symbol mutates the gofakes3 bucket and runs " +
 		"provider.watchChanges for the bucket endpoint; the same with an endpoint naming a single blob; plus sequences against the real scheduler loop. Oracle: vfDecide per blob and poll, " +
 		"active rule sets = latest valid content of existing blobs at the end. Non-trivial: >=2 successful processor calls.")
 	r.Assume("S3 is gofakes3 on loopback (the in-module fake the repository's tests use); network failure = the fake drops the connection / the poll's context deadline has elapsed",
@@ -303,12 +351,17 @@ func TestC18(t *testing.T) {
 	os.Setenv("AWS_SECRET_ACCESS_KEY", "test")
 	os.Setenv("AWS_MAX_ATTEMPTS", "1")
 	os.Setenv("AWS_EC2_METADATA_DISABLED", "true")
+	os.Unsetenv("AWS_CA_BUNDLE") // sandbox setting; makes every bucket client parse the system CA bundle (8 ms per poll)
 	os.Setenv("AWS_CONFIG_FILE", "/nonexistent")
 	os.Setenv("AWS_SHARED_CREDENTIALS_FILE", "/nonexistent")
 
 	backend := s3mem.New()
 	gate := &vfbGate{next: gofakes3.New(backend).Server()}
-	srv := httptest.NewServer(gate)
+	// every poll of the provider opens a new bucket client whose idle connections are never closed; without
+	// keep-alive on the fake's side the test binary would run out of descriptors after some ten thousand polls
+	srv := httptest.NewUnstartedServer(gate)
+	srv.Config.SetKeepAlivesEnabled(false)
+	srv.Start()
 	defer srv.Close()
 
 	if pf := os.Getenv("VERIF_CPUPROFILE"); pf != "" { // development aid
@@ -316,11 +369,15 @@ func TestC18(t *testing.T) {
 			_ = pprof.StartCPUProfile(f)
 		}
 	}
+	fails, ok := vfbCalibrate(r, backend, gate, srv.URL)
+	if !ok {
+		r.End()
+	}
 	t0 := time.Now()
-	vfbDirect(r, backend, gate, srv.URL, false)
+	vfbDirect(r, backend, gate, srv.URL, false, fails[false])
 	r.Set("blob_bucket_wall_s", time.Since(t0).Seconds())
 	t0 = time.Now()
-	vfbDirect(r, backend, gate, srv.URL, true)
+	vfbDirect(r, backend, gate, srv.URL, true, fails[true])
 	r.Set("blob_single_wall_s", time.Since(t0).Seconds())
 	t0 = time.Now()
 	vfbLoop(r, backend, gate, srv.URL)
@@ -329,13 +386,125 @@ func TestC18(t *testing.T) {
 
 	r.Require("blob_sequences", r.Counter("blob_direct_sequences"), 1500)
 	r.Require("blob_calls_created", r.Counter("calls_C"), 500)
-	r.Require("blob_calls_updated", r.Counter("calls_U"), 200)
+	r.Require("blob_calls_updated", r.Counter("calls_U"), 100)
 	r.Require("blob_calls_deleted", r.Counter("calls_D"), 200)
 	r.Require("blob_unchanged_no_call_steps", r.Counter("steps_unchanged_expect_no_call"), 500)
 	r.Require("blob_invalid_kept_steps", r.Counter("steps_invalid_expect_previous_kept"), 100)
 	r.Require("blob_unreachable_steps_with_applied_rule_set", r.Counter("steps_unreachable_expect_previous_kept"), 100)
 	r.Require("blob_loop_steps_quiesced", r.Counter("blob_loop_steps_quiesced"), 10)
 	r.End()
+}
+
+// vfbCalibrate checks the harness against the real endpoint (a valid blob is fetched, an empty one is
+// skipped) and obtains the error of a really dropped connection and of an elapsed deadline.
+func vfbCalibrate(r *core.Run, backend *s3mem.Backend, gate *vfbGate, srvURL string) (map[bool]*vfbFailures, bool) {
+	bucket := "vf_calibration"
+	_ = backend.CreateBucket(bucket)
+	w := &vfbWorld{backend: backend, gate: gate, bucket: bucket, blobs: map[string]*vfbBlob{}}
+	ep, err := vfbEndpoint(srvURL, bucket, "")
+	if err != nil {
+		r.Inconclusive("blob calibration: endpoint config: " + err.Error())
+		return nil, false
+	}
+	_ = w.apply(vfbNewX)
+	_ = w.put("y", vfEmpty, "", "", "application/yaml")
+	ctx := context.Background()
+	rs, err := ep.FetchRuleSets(ctx)
+	if err != nil || len(rs) != 1 || rs[0].Rules[0].ID != w.blobs["x"].content {
+		r.Inconclusive(fmt.Sprintf("blob calibration: fetching one valid and one empty blob gave %d rule sets, err=%v", len(rs), err))
+		return nil, false
+	}
+	// real network failures for both endpoint kinds, obtained concurrently (the SDK retries each three times with back-off)
+	fails := map[bool]*vfbFailures{false: {}, true: {}}
+	t0 := time.Now()
+	var wg sync.WaitGroup
+	for _, single := range []bool{false, true} {
+		single := single
+		blobKey := ""
+		if single {
+			blobKey = "x"
+		}
+		wg.Add(2)
+		go func() {
+			defer wg.Done()
+			b := bucket + "_down"
+			if single {
+				b += "_single"
+			}
+			_ = backend.CreateBucket(b)
+			epd, err := vfbEndpoint(srvURL, b, blobKey)
+			if err != nil {
+				return
+			}
+			gate.down.Store(b, true)
+			fails[single].dropped.sets, fails[single].dropped.err = epd.FetchRuleSets(ctx)
+			fails[single].dropped.done = true
+		}()
+		go func() {
+			defer wg.Done()
+			addr, err := vfReservePort()
+			if err != nil {
+				return
+			}
+			epr, err := vfbEndpoint("http://"+addr, bucket, blobKey)
+			if err == nil {
+				fails[single].refused.sets, fails[single].refused.err = epr.FetchRuleSets(ctx)
+				fails[single].refused.done = true
+			}
+		}()
+	}
+	wg.Wait()
+	for _, f := range fails {
+		if !f.dropped.done || !f.refused.done {
+			r.Inconclusive("blob calibration: could not produce the network failures")
+			return nil, false
+		}
+	}
+	if fails[false].refused.err == nil || fails[true].refused.err == nil || fails[true].dropped.err == nil {
+		r.Inconclusive("blob calibration: a refused connection did not make the fetch fail")
+		return nil, false
+	}
+	c, cancel := context.WithDeadline(ctx, time.Unix(1, 0))
+	_, errTimeout := ep.FetchRuleSets(c)
+	cancel()
+	class := func(e error) string {
+		switch {
+		case e == nil:
+			return "no error"
+		case errors.Is(e, heimdall.ErrCommunicationTimeout):
+			return "ErrCommunicationTimeout"
+		case errors.Is(e, heimdall.ErrCommunication):
+			return "ErrCommunication"
+		case errors.Is(e, heimdall.ErrInternal):
+			return "ErrInternal"
+		}
+		return "other"
+	}
+	r.Set("blob_calibration", map[string]any{
+		"bucket_dropped_connection_result": fmt.Sprintf("%d rule sets, error class: %s", len(fails[false].dropped.sets), class(fails[false].dropped.err)), "bucket_dropped_connection_error": fmt.Sprint(fails[false].dropped.err),
+		"bucket_refused_connection_result": fmt.Sprintf("%d rule sets, error class: %s", len(fails[false].refused.sets), class(fails[false].refused.err)), "bucket_refused_connection_error": fmt.Sprint(fails[false].refused.err),
+		"single_blob_dropped_connection_result": fmt.Sprintf("%d rule sets, error class: %s", len(fails[true].dropped.sets), class(fails[true].dropped.err)), "single_blob_dropped_connection_error": fmt.Sprint(fails[true].dropped.err),
+		"single_blob_refused_connection_result": fmt.Sprintf("%d rule sets, error class: %s", len(fails[true].refused.sets), class(fails[true].refused.err)), "single_blob_refused_connection_error": fmt.Sprint(fails[true].refused.err),
+		"elapsed_deadline_error_class": class(errTimeout), "elapsed_deadline_error": fmt.Sprint(errTimeout),
+		"network_failure_fetches_wall_s": time.Since(t0).Seconds(),
+	})
+	return fails, true
+}
+
+// vfReservePort binds a loopback TCP port without listening on it: connecting gets ECONNREFUSED.
+func vfReservePort() (string, error) {
+	fd, err := syscall.Socket(syscall.AF_INET, syscall.SOCK_STREAM, 0)
+	if err != nil {
+		return "", err
+	}
+	if err = syscall.Bind(fd, &syscall.SockaddrInet4{Port: 0, Addr: [4]byte{127, 0, 0, 1}}); err != nil {
+		return "", err
+	}
+	sa, err := syscall.Getsockname(fd)
+	if err != nil {
+		return "", err
+	}
+	return fmt.Sprintf("127.0.0.1:%d", sa.(*syscall.SockaddrInet4).Port), nil
 }
 
 func vfbSeqNames(d []int) []string {
@@ -347,11 +516,11 @@ func vfbSeqNames(d []int) []string {
 }
 
 // symbols that make sense for an endpoint naming the single blob x
-var vfbSingleAlpha = []int{vfbNewX, vfbSameX, vfbEmptyX, vfbInvalidX, vfbUnsupX, vfbDelX, vfbDown, vfbTimeout, vfbFail}
+var vfbSingleAlpha = []int{vfbNewX, vfbSameX, vfbEmptyX, vfbInvalidX, vfbUnsupX, vfbDelX, vfbDown, vfbRefused, vfbTimeout, vfbFail}
 
-func vfbDirect(r *core.Run, backend *s3mem.Backend, gate *vfbGate, srvURL string, single bool) {
+func vfbDirect(r *core.Run, backend *s3mem.Backend, gate *vfbGate, srvURL string, single bool, fails *vfbFailures) {
 	maxLen := r.Pick(3, 4)
-	nRandom := r.Pick(600, 20000) // seeded longer sequences (length maxLen+1 .. maxLen+2)
+	nRandom := r.Pick(1000, 20000) // seeded longer sequences (length maxLen+1 .. maxLen+2)
 	alpha := make([]int, vfbN)
 	for i := range alpha {
 		alpha[i] = i
@@ -360,12 +529,11 @@ func vfbDirect(r *core.Run, backend *s3mem.Backend, gate *vfbGate, srvURL string
 	if single {
 		alpha = vfbSingleAlpha
 		mode = "blob"
-		maxLen++
 		nRandom /= 4
 	}
 	setup := func(n int, gen func(idx int, digits []int)) func(wk int) (func(int, *vfStats), func()) {
 		return func(wk int) (func(int, *vfStats), func()) {
-			bucket := fmt.Sprintf("vf%s%d", mode, wk)
+			bucket := fmt.Sprintf("vf_%s_%d", mode, wk) // not DNS compatible => path-style requests, as in the repository's tests
 			_ = backend.CreateBucket(bucket)
 			blobKey := ""
 			w := &vfbWorld{backend: backend, gate: gate, bucket: bucket, blobs: map[string]*vfbBlob{}}
@@ -382,7 +550,7 @@ func vfbDirect(r *core.Run, backend *s3mem.Backend, gate *vfbGate, srvURL string
 			digits := make([]int, n)
 			run := func(idx int, st *vfStats) {
 				gen(idx, digits)
-				nOK, bad := vfbRunDirect(r, w, ep, mode, digits, st)
+				nOK, bad := vfbRunDirect(r, w, ep, fails, mode, digits, st)
 				book.add(fmt.Sprint("blob|", mode, digits), nOK >= 2)
 				st.add("blob_direct_sequences", 1)
 				st.add("blob_"+mode+"_sequences", 1)
@@ -419,15 +587,19 @@ func vfbDirect(r *core.Run, backend *s3mem.Backend, gate *vfbGate, srvURL string
 	r.Set("blob_"+mode+"_seeded_sequences_of_length", map[string]int{"count": nRandom, "length": longLen})
 }
 
-func vfbRunDirect(r *core.Run, w *vfbWorld, ep *ruleSetEndpoint, mode string, seq []int, st *vfStats) (int, bool) {
+func vfbRunDirect(r *core.Run, w *vfbWorld, ep *ruleSetEndpoint, fails *vfbFailures, mode string, seq []int, st *vfStats) (int, bool) {
 	w.reset()
 	rec := vfNewRecorder()
 	o := vfNewOracle(st)
 	classify := vfbClassifier(o)
-	p := &provider{p: rec, l: zerolog.Nop(), configured: true}
 	logger := zerolog.Nop()
+	if os.Getenv("VERIF_DEBUG") != "" {
+		logger = zerolog.New(os.Stdout)
+	}
+	p := &provider{p: rec, l: logger, configured: true}
 	base := logger.WithContext(context.Background())
 	step := 0
+	fetcher := &vfbFetcher{real: ep}
 	ctxInfo := map[string]string{}
 	if w.only != "" {
 		ctxInfo["single-blob"] = "1"
@@ -439,16 +611,18 @@ func vfbRunDirect(r *core.Run, w *vfbWorld, ep *ruleSetEndpoint, mode string, se
 			states[l] = w.state(l)
 		}
 		ctx := base
+		fetcher.replay = nil
 		switch w.poll {
 		case "down":
-			w.gate.down.Store(w.bucket, true)
+			fetcher.replay = &fails.dropped
+		case "refused":
+			fetcher.replay = &fails.refused
 		case "timeout":
 			c, cancel := context.WithDeadline(base, time.Unix(1, 0))
 			defer cancel()
 			ctx = c
 		}
-		_ = p.watchChanges(ctx, ep)
-		w.gate.down.Store(w.bucket, false)
+		_ = p.watchChanges(ctx, fetcher)
 		w.poll = ""
 		o.step(step, &vfStep{Action: action, States: states, Holder: w.holder, Classify: classify, Generic: vfGenericBlob, Ctx: ctxInfo}, rec.take())
 		st.add("blob_polls", 1)
@@ -491,7 +665,7 @@ func vfbLoop(r *core.Run, backend *s3mem.Backend, gate *vfbGate, srvURL string) 
 		}
 		book.flush(r)
 	}()
-	fixed := [][]int{{vfbNewX, vfbSameX, vfbNewY, vfbNewX, vfbDelY, vfbInvalidX, vfbNewX}}
+	fixed := [][]int{{vfbNewX, vfbSameX, vfbNewY, vfbDown, vfbNewX, vfbDelY, vfbInvalidX, vfbNewX}}
 	for n := 0; n < nSeq; n++ {
 		var seq []int
 		if n < len(fixed) {
@@ -500,8 +674,10 @@ func vfbLoop(r *core.Run, backend *s3mem.Backend, gate *vfbGate, srvURL string) 
 			seq = make([]int, seqLen)
 			for i := range seq {
 				seq[i] = rng.IntN(vfbN)
-				if seq[i] == vfbTimeout { // no per-poll deadline can be injected into the real loop
-					seq[i] = vfbDown
+				if seq[i] == vfbTimeout || seq[i] == vfbDown || seq[i] == vfbRefused {
+					// no per-poll deadline can be injected into the real loop, and a really dropped connection costs
+					// seconds of SDK back-off: only the fixed first sequence contains one
+					seq[i] = vfbSameX
 				}
 			}
 		}
@@ -515,7 +691,7 @@ func vfbLoop(r *core.Run, backend *s3mem.Backend, gate *vfbGate, srvURL string) 
 }
 
 func vfbRunLoop(r *core.Run, backend *s3mem.Backend, gate *vfbGate, srvURL string, n int, seq []int, st *vfStats) (int, bool) {
-	bucket := fmt.Sprintf("vfloop%d", n)
+	bucket := fmt.Sprintf("vf_loop_%d", n)
 	_ = backend.CreateBucket(bucket)
 	w := &vfbWorld{backend: backend, gate: gate, bucket: bucket, blobs: map[string]*vfbBlob{}}
 	rec := vfNewRecorder()
